@@ -133,7 +133,8 @@ Lemma exec_for_S f P e var rg body :
    | None => ret (SigNone, e)
    | Some (l, rg') =>
        let* e1 := update_var var l e in
-       let* (sig, e2) := exec_block f P e1 body in
+       let* (sig, e2') := exec_block f P ([] :: e1) body in
+       let e2 := tl e2' in
        match sig with
        | SigBreak => ret (SigNone, e2)
        | SigReturn v => ret (SigReturn v, e2)
@@ -343,7 +344,7 @@ Section Step.
 
   Lemma step_for e var rg body :
     good_env e -> name_ok var = true -> stmts_ok body = true -> SpecE (exec_for (S f) P e var rg body).
-  Proof. intros G N OK s r s' H. rewrite exec_for_S in H. go2; fin. Qed.
+  Proof. intros G N OK s r s' H. rewrite exec_for_S in H. cbv zeta in H. go2; fin. Qed.
 End Step.
 
 (* A2, for all nine functions at once *)
